@@ -683,6 +683,7 @@ func syncVictim(res *core.Result, r *rand.Rand, nFrames int) {
 				V.Inst.RouterV.HelloPing.VerifExpireHello(att.inst.IdentityV.IP)
 				_, _ = V.Inst.RouterV.HelloPing.Send(att.inst.IdentityV.IP)
 			}
+			ms.Settle() // a tree that hands frames to its links from a worker of its own
 			var reqs [][]byte
 			for ms.Pending() > 0 {
 				reqs = append(reqs, ms.Take(0).Data)
